@@ -52,7 +52,8 @@ T.append(tree('D4 positional', cmd('app', 'root', extra=[grp('Application Option
     argSplit=1)))      # declared in two positional-args structs: (src) and (n, rest)
 # D5 optional sub-commands, positional on a command, hidden sibling
 T.append(tree('D5 optional subcommands', cmd('app', 'root', extra=[grp('Application Options', [opt('q', 'quiet')])], cmds=[
-    cmd('run', 'exec', subOpt=True, extra=[grp('Run', [opt('k', 'keep')])], args=[{'name': 'file', 'vtype': 'string', 'reqTag': 'yes'}], cmds=[
+    cmd('run', 'exec', subOpt=True, extra=[grp('Run', [opt('k', 'keep')])],
+        args=[{'name': 'opt', 'vtype': 'string'}, {'name': 'file', 'vtype': 'string', 'reqTag': 'yes'}], cmds=[      # an optional positional before a required one
         cmd('fast', 'exec', extra=[grp('Fast', [opt('x', 'xtra')])])]),
     cmd('dbg', 'exec', hidden=True, extra=[grp('Dbg', [])])])))
 # D6 optional arguments
